@@ -17,18 +17,18 @@ let strategy = function
 
 let simplify_cls (e : Sexp.t) : Sexp.t =
   match e with
-  | L [ s; f ] ->
-    (match strategy s with
+  | L [ sn; f ] ->
+    (match strategy sn with
      | Some s ->
        (match M.StrategyCls.run_strategy_opt fixpoint_fuel M.SimplClassic.coq_CLASSIC_opt s (formula f) with
-        | M.StrategyCls.RDone g -> of_formula g
+        | M.StrategyCls.RDone g -> L [ sn; of_formula g ]
         | M.StrategyCls.RPanic -> L [ A "panic" ]
         | M.StrategyCls.RNonterminating -> L [ A "nonterminating" ])
      | None -> bad "simplify_cls: strategy: %s" (to_string e))
   | _ -> bad "simplify_cls: %s" (to_string e)
 
 (* ------------------------------------------------------------------------------------------
-   sem_simplify_cls: input ((strategy F) G) or (F G), G = the implementation's output.
+   sem_simplify_cls: input ((strategy F) (strategy G)) or (F G), G = the implementation's output.
    1. free_variables G must be a subset of free_variables F (syntactic).
    2. On sampled finite classical interpretations, placeholder interpretations and assignments,
       [ceval] of F and of G over a finite window (standard integer arithmetic, quantifiers over the
@@ -165,7 +165,7 @@ let sem_check (f : formula) (g : formula) (seed : int) : Sexp.t =
 let sem_simplify_cls (e : Sexp.t) : Sexp.t =
   match e with
   | L [ _; L [ A "panic" ] ] | L [ _; L [ A "nonterminating" ] ] -> L [ A "ok"; A "0" ]
-  | L [ L [ s; f ]; g ] when strategy s <> None -> sem_check (formula f) (formula g) (Semlib.hash_sexp e)
+  | L [ L [ s; f ]; L [ s'; g ] ] when strategy s <> None && s = s' -> sem_check (formula f) (formula g) (Semlib.hash_sexp e)
   | L [ f; g ] -> sem_check (formula f) (formula g) (Semlib.hash_sexp e)
   | _ -> bad "sem_simplify_cls: %s" (to_string e)
 
